@@ -2023,6 +2023,11 @@ func readOnlyCallee(f *types.Func) bool {
 
 // nonNilProducer: calls that never return nil.
 func nonNilProducer(info *types.Info, x ast.Expr) bool {
+	if u, isU := ast.Unparen(x).(*ast.UnaryExpr); isU && u.Op == token.AND {
+		if _, isLit := ast.Unparen(u.X).(*ast.CompositeLit); isLit {
+			return true // &T{…}
+		}
+	}
 	call, ok := ast.Unparen(x).(*ast.CallExpr)
 	if !ok {
 		return false
